@@ -6,7 +6,7 @@
    CREATE/DELETE/RENAME/APPEND/COPY/MOVE/EXPUNGE (any UID list, so also the highest UID)/connector mailbox creation,
    message batches, UIDVALIDITY bump/Restart, with any pattern of failing connector calls. *)
 From Coq Require Import List ZArith NArith Bool.
-From Gluon Require Import Model.UidValidityGen Model.MailStore Proofs.MailStoreBase Proofs.MailStoreWf Proofs.MailStoreC04.
+From Gluon Require Import Gen.FactsLimits Model.UidValidityGen Model.MailStore Proofs.MailStoreBase Proofs.MailStoreWf Proofs.MailStoreC04.
 Import ListNotations.
 Open Scope Z_scope.
 
@@ -73,6 +73,14 @@ Print Assumptions C04_generator_closed_form.
 Theorem C04_generator_strictly_increasing : forall now last v, uv_generate now last = UvOk v -> last < v /\ v <= u32max.
 Proof. exact uv_generate_gt. Qed.
 Print Assumptions C04_generator_strictly_increasing.
+
+(* The model treats CREATE as one atomic step (generation and insertion together). That is the code's behaviour only if
+   State.Create generates the UIDVALIDITY inside its write transaction - a structural fact extracted by T1; otherwise two
+   sessions creating / deleting / re-creating one name at the same time can leave the later mailbox with the lower value
+   (reproduced with the gated database client; fix C04-fix-2). *)
+Theorem C04_create_generates_under_write_lock : cf_create_gen_in_tx facts_now = true.
+Proof. reflexivity. Qed.
+Print Assumptions C04_create_generates_under_write_lock.
 
 (* UIDVALIDITY within one process: take any state s in which no mailbox carries a value above the generator's last
    value (true at start-up, preserved), and any later state without a restart in between. A mailbox m' of the later
